@@ -36,6 +36,21 @@ func ValidateURNScheme(fl validator.FieldLevel) bool {
 	return urns.IsValidScheme(fl.Field().String())
 }
 
+// NormalizeURN normalizes the given URN until normalizing it again no longer changes it. Once is not always enough: a
+// phone number with several zeros after its country code loses one of them each time (tel:+4400858870981 becomes
+// tel:+440858870981 and then tel:+44858870981), and a URN kept in a form which still normalizes to something else is
+// not found again by Contact.HasURN, so it could be appended over and over and never removed.
+func NormalizeURN(urn urns.URN) urns.URN {
+	for i := 0; i < 20; i++ {
+		normalized := urn.Normalize()
+		if normalized == urn {
+			break
+		}
+		urn = normalized
+	}
+	return urn
+}
+
 // ContactURN represents a destination for an outgoing message or a source of an incoming message. It is string composed of 3
 // components: scheme, path, and display (optional). For example:
 //
